@@ -107,10 +107,12 @@ CLAIMED = {
          "reordered programs (nothing lost) is checked (all permutations of small conjunctions, FD posting orders), not proved.",
          "6/C04", "Coq proof of order-freedom at the store/disjunction level and of the logical reading + whole-program soundness + permutation-group oracle on the implementation",
          "That a reordering loses no answers (completeness) is checked on generated programs, not proved."),
- "C12": ("PARTIAL. Proved: the goal everyg solves is the conjunction (from_array) of the instantiated bodies in reverse order, and an empty "
-         "collection succeeds exactly once with the state unchanged. That conjunct order does not matter is C04.",
-         "6/C12", "Coq proof: everyg = reversed conjunction, empty case + for-vs-explicit-conjunction oracle on the implementation",
-         "Depends on C04 for order-insensitivity of conjunction."),
+ "C12": ("Proved: the goal everyg solves is the conjunction (from_array) of the instantiated bodies in reverse order; an empty collection "
+         "succeeds exactly once with the state unchanged; and semantically, for any collection and body: every solution of every answer "
+         "the engine delivers for `for x in coll { body }` satisfies the logical reading of the body constructed for EVERY element (one "
+         "body per element) and solves the starting state, whatever the scheduling of the conjuncts.",
+         "6/C12", "Coq proof: everyg = reversed conjunction, empty case, every-element soundness through the declarative semantics + for-vs-explicit-conjunction oracle on the implementation",
+         "That no answer of the explicit conjunction is lost (completeness) is checked by the oracle; order-insensitivity of conjunction is C04."),
  "C22": ("Theorems: #with_constraint = #take_constraint + store size is preserved by every state operation (unify, disunify, posting and "
          "re-running every constraint kind, domains, normalisation with dropped constraints), for all fuel, and therefore holds in every "
          "state of every stream the engine builds and in every answer Solver::next delivers, for all goals and definitions (lifted over "
